@@ -434,7 +434,7 @@ void run_case(const uint8_t *data, size_t size, CaseCtx &ctx) {
   analyzer_t a(cfg, top.make_top(), use_liveness ? &live : nullptr, fp);
   typename analyzer_t::assumption_map_t assumptions;
   g_step_count = 0;
-  g_step_budget = 5000000;
+  g_step_budget = 400000;
   try {
     a.run(cfg.entry(), init, assumptions);
   } catch (const step_budget_exceeded &e) {
